@@ -262,3 +262,223 @@ Section Gline.
       + rewrite (subst_any_miss l n d Ht tr E). apply list_eqb_eq in C1. rewrite C1. unfold spec_absent. rewrite (find_tag l n d Ht). reflexivity.
   Qed.
 End Gline.
+
+(* ---------------------------------------------------------------- the per-transition block inside a per-event block *)
+Lemma opt_concat_somes {A} (f : A -> option (list string)) (g : A -> list string) : forall l,
+  (forall x, In x l -> f x = Some (g x)) -> opt_concat (map f l) = Some (flat_map g l).
+Proof.
+  induction l as [|x l IH]; intros H; [reflexivity|]. cbn [map opt_concat flat_map]. rewrite (H x (or_introl eq_refl)).
+  rewrite (IH (fun y Hy => H y (or_intror Hy))). reflexivity.
+Qed.
+
+Lemma not_be2_not_be tags s : not_be2 tags s = not_be (fst tags) (snd tags) s.
+Proof. reflexivity. Qed.
+
+Lemma tagfree_not_be b e s : tagfree s = true -> not_be b e s = true.
+Proof. intros H. unfold not_be. rewrite !(tagfree_specific s _ H). reflexivity. Qed.
+
+Lemma inner_pair_facts tags bl el : inner_pair_ok tags bl el = true ->
+  hasSpecificTag bl (fst tags) = true /\ hasSpecificTag bl (snd tags) = false /\ hasDefault bl = false
+  /\ hasSpecificTag el (fst tags) = false /\ hasSpecificTag el (snd tags) = true.
+Proof.
+  unfold inner_pair_ok. intros H. apply andb_prop in H as [H E2]. apply andb_prop in H as [H E1]. apply andb_prop in H as [H B3].
+  apply andb_prop in H as [B1 B2]. apply negb_true_iff in B2, B3, E1. auto.
+Qed.
+
+Lemma flat_map_ext_In {A B} (f g : A -> list B) : forall l, (forall x, In x l -> f x = g x) -> flat_map f l = flat_map g l.
+Proof. induction l as [|x l IH]; intros H; [reflexivity|]. cbn [flat_map]. rewrite (H x (or_introl eq_refl)), (IH (fun y Hy => H y (or_intror Hy))). reflexivity. Qed.
+
+Lemma flat_map_map {A B C} (f : B -> list C) (g : A -> B) l : flat_map f (map g l) = flat_map (fun x => f (g x)) l.
+Proof. induction l as [|x l IH]; [reflexivity|]. cbn [map flat_map]. rewrite IH. reflexivity. Qed.
+
+Section PerEvent.
+  Variables (ev : string) (trs : list (list (string * string))).
+  Hypothesis Hev : vals_nolg (event_table ev) = true.
+  Hypothesis Htrs : forallb trans_wf trs = true.
+
+  Notation CH := (chain (event_table ev)).
+
+  Lemma guard_block gb : forallb gline_ok gb = true ->
+    guard_expansion trs (map CH (map render_line gb)) None = Some (flat_map (fun tr => flat_map (ref_gline ev tr) gb) trs).
+  Proof.
+    intros Hg. unfold guard_expansion. f_equal. apply flat_map_ext_In. intros tr Htr.
+    rewrite forallb_forall in Htrs. rewrite map_map, flat_map_map. apply flat_map_ext_In. intros l Hl.
+    rewrite forallb_forall in Hg. exact (gline_is_ref ev tr Hev (Htrs tr Htr) l (Hg l Hl)).
+  Qed.
+
+  (* the lines of a per-event block body after the event's names have been filled in are not begin / end of a per-transition
+     block, except the delimiters themselves *)
+  Lemma gline_not_be l : gline_ok l = true -> not_be (fst pgt_tags) (snd pgt_tags) (CH (render_line l)) = true.
+  Proof.
+    intros H. unfold gline_ok in H. apply andb_prop in H as [H Hk]. repeat (apply andb_prop in H as [H ?G]). rename H into Hl.
+    destruct (forallb (closed_seg event_keys) l) eqn:Gev.
+    - rewrite (chain_render _ l (event_table_kv ev Hev) Hl). apply tagfree_not_be. apply closed_subst_tagfree; assumption.
+    - cbn [orb] in Hk. unfold cond_line_ok in Hk. destruct (the_tag l) as [[n d]|]; [|discriminate].
+      repeat (apply andb_prop in Hk as [Hk ?C]). rewrite no_tags_of_app in C5. apply andb_prop in C5 as [_ C5].
+      rewrite (no_tags_chain event_keys (event_table ev) _ eq_refl C5). exact C.
+  Qed.
+
+  Lemma pet_body : forall body, forallb eitem_ok body = true ->
+    pair_go (fst pgt_tags) (snd pgt_tags) (guard_expansion trs) false [] None (map CH (flat_map render_eitem body))
+    = Some (flat_map (ref_eitem ev trs) body).
+  Proof.
+    induction body as [|x body IH]; intros H; [reflexivity|]. cbn [forallb] in H. apply andb_prop in H as [Hx H].
+    cbn [flat_map]. rewrite map_app. destruct x as [l|ib ie gb]; cbn [eitem_ok render_eitem ref_eitem] in *.
+    - repeat (apply andb_prop in Hx as [Hx ?E]). rename Hx into Hl.
+      cbn [map]. rewrite (chain_render _ l (event_table_kv ev Hev) Hl).
+      assert (T : tagfree (render_line (map (subst16 (event_table ev)) l)) = true) by (apply closed_subst_tagfree; assumption).
+      rewrite (pb_pre _ _ _ [_] _ None); [|cbn [forallb]; rewrite (tagfree_not_be _ _ _ T); reflexivity].
+      rewrite (IH H). reflexivity.
+    - do 7 (apply andb_prop in Hx as [Hx ?E]). rename Hx into Hp.
+      rewrite no_tags_of_app in E1, E0. apply andb_prop in E1 as [_ E1]. apply andb_prop in E0 as [_ E0].
+      destruct (inner_pair_facts _ _ _ Hp) as (B1 & B2 & B3 & F1 & F2).
+      cbn [map app]. rewrite map_app. cbn [map].
+      rewrite (no_tags_chain event_keys (event_table ev) _ eq_refl E1), (no_tags_chain event_keys (event_table ev) _ eq_refl E0).
+      rewrite <- app_assoc. cbn [app].
+      assert (NB : forallb (not_be (fst pgt_tags) (snd pgt_tags)) (map CH (map render_line gb)) = true).
+      { clear -E Hev. induction gb as [|l gb IHg]; [reflexivity|]. cbn [forallb map] in *. apply andb_prop in E as [E1 E2].
+        rewrite (gline_not_be l E1), (IHg E2). reflexivity. }
+      pose proof (pair_block (fst pgt_tags) (snd pgt_tags) (guard_expansion trs) [] _ _ _ (map CH (flat_map render_eitem body)) eq_refl NB B1 B2 B3 F1 F2) as PB.
+      cbn [app] in PB. rewrite PB, (guard_block gb E), (IH H). reflexivity.
+  Qed.
+
+  Lemma inner_tpg_is_ref body : forallb eitem_ok body = true ->
+    inner_tpg (flat_map render_eitem body) ev trs = Some (flat_map (ref_eitem ev trs) body).
+  Proof. intros H. unfold inner_tpg, pair_expand. rewrite filterEventName_chain. exact (pet_body body H). Qed.
+End PerEvent.
+
+(* ---------------------------------------------------------------- the per-event blocks inside a per-state block *)
+Lemma eitem_lines_facts x : eitem_ok x = true ->
+  forallb (fun ln => no_tags_of state_keys ln && not_be (fst pet_tags) (snd pet_tags) ln) (render_eitem x) = true.
+Proof.
+  destruct x as [l|ib ie gb]; cbn [eitem_ok render_eitem]; intros H.
+  - do 4 (apply andb_prop in H as [H ?E]). cbn [forallb]. rewrite E. rewrite <- not_be2_not_be, E0. reflexivity.
+  - do 7 (apply andb_prop in H as [H ?E]). rewrite no_tags_of_app in E1, E0. apply andb_prop in E1 as [E1 _]. apply andb_prop in E0 as [E0 _].
+    cbn [forallb]. rewrite E1, <- not_be2_not_be, E3. cbn [andb]. rewrite forallb_app'. cbn [forallb]. rewrite E0, <- not_be2_not_be, E2. cbn [andb]. rewrite andb_true_r.
+    clear -E. induction gb as [|l gb IH]; [reflexivity|]. cbn [forallb map] in *. apply andb_prop in E as [G1 G2]. rewrite (IH G2), andb_true_r.
+    unfold gline_ok in G1. apply andb_prop in G1 as [G1 _]. do 3 (apply andb_prop in G1 as [G1 ?K]). rewrite K, <- not_be2_not_be, K0. reflexivity.
+Qed.
+
+Lemma eitems_lines_facts : forall eb, forallb eitem_ok eb = true ->
+  forallb (fun ln => no_tags_of state_keys ln && not_be (fst pet_tags) (snd pet_tags) ln) (flat_map render_eitem eb) = true.
+Proof.
+  induction eb as [|x eb IH]; [reflexivity|]. cbn [forallb flat_map]. intros H. apply andb_prop in H as [H1 H2].
+  rewrite forallb_app', (eitem_lines_facts x H1), (IH H2). reflexivity.
+Qed.
+
+Section PerState.
+  Variables (s : string) (evs : list (string * list (list (string * string)))).
+  Hypothesis Hs : vals_nolg (state_table s) = true.
+  Hypothesis Hevs : forallb (fun et => vals_nolg (event_table (fst et)) && forallb trans_wf (snd et)) evs = true.
+
+  Notation CS := (chain (state_table s)).
+
+  Lemma state_chain_id : forall lines, forallb (no_tags_of state_keys) lines = true -> map CS lines = lines.
+  Proof.
+    induction lines as [|ln r IH]; [reflexivity|]. cbn [forallb map]. intros H. apply andb_prop in H as [H1 H2].
+    rewrite (no_tags_chain state_keys (state_table s) ln eq_refl H1), (IH H2). reflexivity.
+  Qed.
+
+  Lemma event_block eb : forallb eitem_ok eb = true ->
+    event_expansion evs (flat_map render_eitem eb) None
+    = Some (flat_map (fun et => flat_map (ref_eitem (fst et) (snd et)) eb) evs).
+  Proof.
+    intros H. unfold event_expansion. apply opt_concat_somes. intros et Het. rewrite forallb_forall in Hevs.
+    specialize (Hevs et Het). apply andb_prop in Hevs as [H1 H2]. exact (inner_tpg_is_ref (fst et) (snd et) H1 H2 eb H).
+  Qed.
+
+  Lemma pst_body : forall body, forallb titem_ok body = true ->
+    pair_go (fst pet_tags) (snd pet_tags) (event_expansion evs) false [] None (map CS (flat_map render_titem body))
+    = Some (flat_map (ref_titem s evs) body).
+  Proof.
+    induction body as [|x body IH]; intros H; [reflexivity|]. cbn [forallb] in H. apply andb_prop in H as [Hx H].
+    cbn [flat_map]. rewrite map_app. destruct x as [l|ib ie eb]; cbn [titem_ok render_titem ref_titem] in *.
+    - do 2 (apply andb_prop in Hx as [Hx ?E]). rename Hx into Hl.
+      cbn [map]. rewrite (chain_render _ l (state_table_kv s Hs) Hl).
+      assert (T : tagfree (render_line (map (subst16 (state_table s)) l)) = true) by (apply closed_subst_tagfree; assumption).
+      rewrite (pb_pre _ _ _ [_] _ None); [|cbn [forallb]; rewrite (tagfree_not_be _ _ _ T); reflexivity].
+      rewrite (IH H). reflexivity.
+    - do 5 (apply andb_prop in Hx as [Hx ?E]). rename Hx into Hp.
+      destruct (inner_pair_facts _ _ _ Hp) as (B1 & B2 & B3 & F1 & F2).
+      pose proof (eitems_lines_facts eb E) as LF.
+      assert (L1 : forallb (no_tags_of state_keys) (flat_map render_eitem eb) = true).
+      { revert LF. apply forallb_impl. intros ln K. apply andb_prop in K. tauto. }
+      assert (L2 : forallb (not_be (fst pet_tags) (snd pet_tags)) (flat_map render_eitem eb) = true).
+      { revert LF. apply forallb_impl. intros ln K. apply andb_prop in K. tauto. }
+      cbn [map app]. rewrite map_app. cbn [map].
+      rewrite (no_tags_chain state_keys (state_table s) _ eq_refl E1), (no_tags_chain state_keys (state_table s) _ eq_refl E0), (state_chain_id _ L1).
+      rewrite <- app_assoc. cbn [app].
+      pose proof (pair_block (fst pet_tags) (snd pet_tags) (event_expansion evs) [] _ _ _ (map CS (flat_map render_titem body)) eq_refl L2 B1 B2 B3 F1 F2) as PB.
+      cbn [app] in PB. rewrite PB, (event_block eb E), (IH H). reflexivity.
+  Qed.
+End PerState.
+
+(* innerexpand_transitionsperstate on the body of a per-state-transition block *)
+Theorem inner_tps_is_ref tps body : forallb titem_ok body = true -> tps_wf tps = true ->
+  inner_tps tps (flat_map render_titem body) None = Some (ref_trans tps body).
+Proof.
+  intros Hb Hw. unfold inner_tps, ref_trans. apply opt_concat_somes. intros se Hse.
+  unfold tps_wf in Hw. rewrite forallb_forall in Hw. specialize (Hw se Hse). apply andb_prop in Hw as [H1 H2].
+  unfold pair_expand. rewrite filterStateName_chain. exact (pst_body (fst se) (snd se) H1 H2 body Hb).
+Qed.
+
+(* ---------------------------------------------------------------- the expansion carries no tag; the template lines are inert *)
+Lemma forallb_flat_map {A} (P : string -> bool) (f : A -> list string) : forall l,
+  (forall x, In x l -> forallb P (f x) = true) -> forallb P (flat_map f l) = true.
+Proof.
+  induction l as [|x l IH]; intros H; [reflexivity|]. cbn [flat_map]. rewrite forallb_app', (H x (or_introl eq_refl)), (IH (fun y Hy => H y (or_intror Hy))). reflexivity.
+Qed.
+
+Lemma ref_gline_tagfree ev tr l : vals_nolg (event_table ev) = true -> trans_wf tr = true -> gline_ok l = true ->
+  forallb tagfree (ref_gline ev tr l) = true.
+Proof.
+  intros Hev Htr H. unfold gline_ok in H. apply andb_prop in H as [H Hk]. repeat (apply andb_prop in H as [H ?G]). rename H into Hl.
+  unfold ref_gline. destruct (forallb (closed_seg event_keys) l) eqn:Gev.
+  - set (l1 := map (subst16 (event_table ev)) l).
+    assert (L1 : forallb (fun g => negb (is_tagseg g)) l1 = true) by (apply closed_subst_lits; exact Gev).
+    rewrite (subst_any_lits tr l1 L1), (find_none_lits l1 L1). cbn [forallb]. rewrite andb_true_r. apply closed_subst_tagfree; assumption.
+  - cbn [orb] in Hk. unfold cond_line_ok in Hk. destruct (the_tag l) as [[n d]|] eqn:Ht; [|discriminate].
+    repeat (apply andb_prop in Hk as [Hk ?C]).
+    assert (Ne : lookup String.eqb n (event_table ev) = None).
+    { apply lookup_not_in. pose proof cond_not_event as K. rewrite forallb_forall in K.
+      apply existsb_exists in Hk as (k & Hk1 & E). apply String.eqb_eq in E. subst k. specialize (K n Hk1). apply negb_true_iff in K. exact K. }
+    rewrite (subst16_miss l n d Ht _ Ne).
+    destruct (lookup String.eqb (tagstr n) tr) as [v|] eqn:E.
+    + rewrite (subst_any_hit l n d Ht tr v E).
+      assert (Hv : no_lg v = true).
+      { clear -Htr E. induction tr as [|[k x] r IH]; [discriminate|]. unfold trans_wf in Htr. cbn [forallb lookup fst snd] in *.
+        apply andb_prop in Htr as [H1 H2]. destruct (String.eqb (tagstr n) k); [inversion E; subst; apply andb_prop in H1; tauto|exact (IH H2 E)]. }
+      destruct (fill_ok l v Hl Hv) as [F1 F2]. rewrite (find_none_lits _ F2). cbn [forallb]. rewrite (lits_tagfree _ F1 F2). reflexivity.
+    + rewrite (subst_any_miss l n d Ht tr E). unfold spec_absent in C0. rewrite (find_tag l n d Ht) in *. exact C0.
+Qed.
+
+Lemma ref_trans_tagfree tps body : forallb titem_ok body = true -> tps_wf tps = true -> forallb tagfree (ref_trans tps body) = true.
+Proof.
+  intros Hb Hw. unfold ref_trans. apply forallb_flat_map. intros se Hse.
+  unfold tps_wf in Hw. rewrite forallb_forall in Hw. specialize (Hw se Hse). apply andb_prop in Hw as [Hs Hevs].
+  apply forallb_flat_map. intros x Hx. rewrite forallb_forall in Hb. specialize (Hb x Hx).
+  destruct x as [l|ib ie eb]; cbn [titem_ok ref_titem] in *.
+  - do 2 (apply andb_prop in Hb as [Hb ?E]). cbn [forallb]. rewrite andb_true_r. apply closed_subst_tagfree; assumption.
+  - do 5 (apply andb_prop in Hb as [Hb ?E]). apply forallb_flat_map. intros et Het. rewrite forallb_forall in Hevs.
+    specialize (Hevs et Het). apply andb_prop in Hevs as [Hev Htrs].
+    apply forallb_flat_map. intros y Hy. rewrite forallb_forall in E. specialize (E y Hy).
+    destruct y as [l|ib' ie' gb]; cbn [eitem_ok ref_eitem] in *.
+    + do 4 (apply andb_prop in E as [E ?K]). cbn [forallb]. rewrite andb_true_r. apply closed_subst_tagfree; assumption.
+    + do 7 (apply andb_prop in E as [E ?K]). apply forallb_flat_map. intros tr Htr. rewrite forallb_forall in Htrs.
+      apply forallb_flat_map. intros l Hl. rewrite forallb_forall in K. apply ref_gline_tagfree; [exact Hev|exact (Htrs tr Htr)|exact (K l Hl)].
+Qed.
+
+(* every template line inside a nested block loads unchanged and is inert for the top-level expander stages *)
+Lemma trans_lines_inert : forall body, forallb titem_ok body = true -> forallb inert (flat_map render_titem body) = true.
+Proof.
+  intros body Hb. apply forallb_flat_map. intros x Hx. rewrite forallb_forall in Hb. specialize (Hb x Hx).
+  destruct x as [l|ib ie eb]; cbn [titem_ok render_titem] in *.
+  - do 2 (apply andb_prop in Hb as [Hb ?E]). cbn [forallb]. rewrite E. reflexivity.
+  - do 5 (apply andb_prop in Hb as [Hb ?E]). cbn [forallb]. rewrite E3. cbn [andb]. rewrite forallb_app'. cbn [forallb]. rewrite E2, !andb_true_r.
+    apply forallb_flat_map. intros y Hy. rewrite forallb_forall in E. specialize (E y Hy).
+    destruct y as [l|ib' ie' gb]; cbn [eitem_ok render_eitem] in *.
+    + do 4 (apply andb_prop in E as [E ?K]). cbn [forallb]. rewrite K1. reflexivity.
+    + do 7 (apply andb_prop in E as [E ?K]). cbn [forallb]. rewrite K5. cbn [andb]. rewrite forallb_app'. cbn [forallb]. rewrite K4, !andb_true_r.
+      clear -K. induction gb as [|l gb IH]; [reflexivity|]. cbn [forallb map] in *. apply andb_prop in K as [G1 G2]. rewrite (IH G2), andb_true_r.
+      unfold gline_ok in G1. apply andb_prop in G1 as [G1 _]. do 3 (apply andb_prop in G1 as [G1 ?J]). exact J1.
+Qed.
